@@ -84,10 +84,15 @@ def add_memory_ops(g, shared):
     g.add("fill", "iii", "", [("local.get", 0), ("local.get", 1), ("local.get", 2), ("memory.fill",)], "fill")
 
 
-def gen_atom(outdir, maxpages=6):
-    g = Gen("atom")
+def gen_atom(outdir, maxpages=6, imported=False):
+    g = Gen("atomimp" if imported else "atom")
     m = g.m
-    m.memory(1, maxpages, shared=True, export="memory")
+    if imported:
+        # the usual layout of threaded programs: the shared memory is imported (and re-exported)
+        m.import_memory("env", "memory", 1, maxpages, shared=True)
+        m.exports.append(("memory", 2, 0))
+    else:
+        m.memory(1, maxpages, shared=True, export="memory")
     add_memory_ops(g, True)
     for op, code in sorted(ATOMIC.items(), key=lambda kv: kv[1]):
         if op in ("atomic.fence",):
@@ -140,6 +145,8 @@ if __name__ == "__main__":
     kind, outdir = sys.argv[1], sys.argv[2]
     if kind == "atom":
         gen_atom(outdir, *[int(x) for x in sys.argv[3:4]])
+    elif kind == "atomimp":
+        gen_atom(outdir, 6, imported=True)
     elif kind == "mem":
         params = sys.argv[3:]
         mn = int(params[0]) if params else 1
